@@ -343,7 +343,7 @@ func (g *Gen) Token(class int, kind string, nano int64, arg string, challenge st
 }
 
 func (g *Gen) genToken(t *rapid.T, kind, arg string, s *SessInfo) string {
-	class := pickW(t, "tokclass", 6, 1, 1, 1, 1, 1, 1, 1, 1, 1)
+	class := pickW(t, "tokclass", 8, 1, 3, 3, 1, 1, 1, 1, 1, 1)
 	ch := "00000000"
 	if s != nil && len(s.Auth) >= 8 {
 		ch = s.Auth[:8]
@@ -613,11 +613,13 @@ func (g *Gen) scenario(t *rapid.T, w *World) bool {
 	line := func(s *SessInfo, data string) {
 		script = append(script, Entry{Kind: "irc", Session: s.Id, Data: data, Addr: s.RemoteAddr})
 	}
-	restr := pick(t, "screstr", []string{"i", "k", "x", "b", "ik", "xk", "xb", "ib", "kb", "xi", ""})
+	restr := pick(t, "screstr", []string{"i", "k", "x", "b", "ik", "xk", "xb", "ib", "kb", "xi", "", "is", "xs", "in"})
 	for _, r := range restr {
 		switch r {
-		case 'i', 'x':
+		case 'i', 'x', 's':
 			line(op, "MODE "+ch.Name+" +"+string(r))
+		case 'n':
+			line(op, "MODE "+ch.Name+" -n")
 		case 'k':
 			key = pick(t, "sckey", []string{"key", "k2"})
 			line(op, "MODE "+ch.Name+" +k "+key)
@@ -627,7 +629,22 @@ func (g *Gen) scenario(t *rapid.T, w *World) bool {
 		}
 	}
 	if coin(t, "scinvite", 2, 5) {
-		line(op, "INVITE "+out.Nick+" "+ch.Name)
+		inviter := op
+		// sometimes a plain member (not an operator) tries to invite
+		if len(ch.Members) > len(ch.Ops) && coin(t, "scplaininviter", 1, 2) {
+			for _, m := range ch.Members {
+				isOp := false
+				for _, o := range ch.Ops {
+					if o == m {
+						isOp = true
+					}
+				}
+				if ms := w.nickOwner(NickLower(m)); !isOp && ms != nil && !ms.Server && ms.Reply == 0 {
+					inviter = ms
+				}
+			}
+		}
+		line(inviter, "INVITE "+out.Nick+" "+ch.Name)
 	}
 	joins := rapid.IntRange(1, 2).Draw(t, "scjoins")
 	for j := 0; j < joins; j++ {
